@@ -435,7 +435,35 @@ def rule_r4(ctx) -> RuleResult:
         if isinstance(e, ast.Name):
             if e.id in roots:
                 return []
+            defs = [s_.value for s_ in body_if[0].body if isinstance(s_, ast.Assign) and len(s_.targets) == 1 and unparse(s_.targets[0]) == e.id]
+            if len(defs) == 1:
+                return steps_of(defs[0])
             raise AnalysisError("lua_loader: path built from `{}` (inconclusive)".format(e.id))
+        # "/".join(c for c in X.split("/") if <keeps only components that are not empty and not all dots>)
+        if isinstance(e, ast.Call) and isinstance(e.func, ast.Attribute) and e.func.attr == "join" and isinstance(e.func.value, ast.Constant) \
+                and e.func.value.value == "/" and len(e.args) == 1:
+            src = e.args[0]
+            if isinstance(src, ast.Name):
+                defs = [s_.value for s_ in body_if[0].body if isinstance(s_, ast.Assign) and len(s_.targets) == 1 and unparse(s_.targets[0]) == src.id]
+                src = defs[0] if len(defs) == 1 else src
+            if isinstance(src, (ast.ListComp, ast.GeneratorExp)) and len(src.generators) == 1 and isinstance(src.elt, ast.Name) \
+                    and isinstance(src.generators[0].target, ast.Name) and src.elt.id == src.generators[0].target.id:
+                g = src.generators[0]
+                it = g.iter
+                if isinstance(it, ast.Call) and isinstance(it.func, ast.Attribute) and it.func.attr == "split" and len(it.args) == 1 \
+                        and isinstance(it.args[0], ast.Constant) and it.args[0].value == "/":
+                    v = g.target.id
+                    drops_empty = drops_dots = False
+                    for cond in g.ifs:
+                        t = unparse(cond)
+                        if t in (v, "len({}) > 0".format(v), "{} != ''".format(v)):
+                            drops_empty = True
+                        if t in ("{}.strip('.')".format(v), "{}.strip('.') != ''".format(v)):
+                            drops_empty = drops_dots = True
+                        if t in ("{} not in ('', '.', '..')".format(v), "{} not in ('.', '..', '')".format(v)):
+                            drops_empty = True
+                            drops_dots = "partial"
+                    return steps_of(it.func.value) + [("components", drops_empty, drops_dots)]
         if isinstance(e, ast.Call) and isinstance(e.func, ast.Name) and len(e.args) == 1 and not e.keywords \
                 and ctx.index.has_func("luaexec." + e.func.id):
             return steps_of(e.args[0]) + helper_ops(ctx.index.func("luaexec." + e.func.id))
@@ -506,6 +534,13 @@ def rule_r4(ctx) -> RuleResult:
                 st["dotdot"] = True
             if a2 == "" and a1 not in ("/", "."):
                 st["dotdot"] = st["double_slash"] = st["leading_slash"] = True  # a deletion, as above
+        elif kind == "components":
+            seen_ops.append("split('/') -> filter(empty: {}, dots: {}) -> join('/')".format(a1, a2))
+            if a1:  # no empty component: neither a leading nor a doubled slash
+                st["leading_slash"] = False
+                st["double_slash"] = False
+            if a2 is True:  # no component made of dots only
+                st["dotdot"] = False
         elif kind in ("lstrip", "strip"):
             seen_ops.append("{}({!r})".format(kind, a1))
             if "/" in a1:
